@@ -157,4 +157,18 @@ theorem dft_smul (tw : ℕ → ℕ → β) (c : β) (x : List β) (N : ℕ) :
 
 end Semiring
 
+section Idft
+variable {α β : Type} [Add β] [Mul β] [Div β] [OfNat β 0] [NatCast α] [CxLike α β]
+
+/-- the inverse transform is the forward sum with conjugate twiddles, divided by `N` -/
+theorem idft_eq_map (tw : ℕ → ℕ → β) (X : List β) (N : ℕ) :
+    idft tw X N = (dft (fun n m => CxLike.conj (tw n m)) X N).map
+      (fun z => z / CxLike.ofReal ((N : ℕ) : α)) := by
+  simp [idft, dft, List.map_map]
+
+@[simp] theorem length_idft (tw : ℕ → ℕ → β) (X : List β) (N : ℕ) : (idft tw X N).length = N := by
+  simp [idft]
+
+end Idft
+
 end EqsigVerif.Cplx
